@@ -3,6 +3,7 @@ package main
 import (
 	"fmt"
 	"go/token"
+	"strings"
 
 	"golang.org/x/tools/go/ssa"
 )
@@ -33,12 +34,15 @@ func init() {
 			{Name: "stat-cache-not-reset", File: "extractor/filesystem/filesystem.go", Old: "	wc.fileAPI.currentStatCalled = false\n", New: "", Rule: "D1-fileapi", Site: "currentStatCalled"},
 			{Name: "skip-before-push", File: "extractor/filesystem/filesystem.go", Old: "		wc.dirsVisited++\n		if wc.useGitignore {", New: "		wc.dirsVisited++\n		if wc.shouldSkipDir(path) {\n			return fs.SkipDir\n		}\n		if wc.useGitignore {", Rule: "D5-balanced", Site: "push"},
 			{Name: "explicit-dir-no-parent-gitignore", File: "extractor/filesystem/filesystem.go", Old: "					wc.gitignores = gitignores\n", New: "					_ = gitignores\n", Rule: "D8-same", Site: "parent-gitignores"},
+			{Name: "skip-gitignore-even-when-disabled", File: "extractor/filesystem/filesystem.go", Old: "	if wc.useGitignore && internal.GitignoreMatch(wc.gitignores, strings.Split(path, \"/\"), true) {\n		return true\n	}\n", New: "	if wc.useGitignore || internal.GitignoreMatch(wc.gitignores, strings.Split(path, \"/\"), true) {\n		return true\n	}\n", Rule: "D4-decision-table", Site: "shouldSkipDir"},
 		},
 		Neutral: handleFileNeutral,
 	})
 }
 
 func runC01(p *Prog, r *Report) {
+	r.Rule("D4-decision-table", "the skip predicate is exactly the disjunction of the five configured skip rules")
+	defer c01SkipTable(p, r)
 	r.Rule("D1-dispatch", "Extract only on the extractor whose FileRequired just returned true")
 	r.Rule("D1-fileapi", "lazy file API points at the current path, stat cache reset, before FileRequired")
 	r.Rule("D2-once", "one dispatch per (file, extractor); loop covers all extractors")
@@ -823,4 +827,78 @@ func stripChangeType(v ssa.Value) ssa.Value {
 		}
 		v = ct.X
 	}
+}
+
+// c01SkipTable: shouldSkipDir, as a boolean function of its atomic tests, equals
+//
+//	skip ⇔ path ∈ dirsToSkip ∨ (ignoreSubDirs ∧ path ∉ pathsToExtract) ∨ (useGitignore ∧ gitignore matches)
+//	      ∨ (regex set ∧ regex matches) ∨ (glob set ∧ glob matches)
+func c01SkipTable(p *Prog, r *Report) {
+	fn := p.Func("extractor/filesystem", "walkContext.shouldSkipDir")
+	site := "walkContext.shouldSkipDir"
+	if fn == nil {
+		r.Undecided("D4-decision-table", "anchor:"+site, "-", "not found")
+		return
+	}
+	atoms, table, ok := decisionTableRaw(fn, false)
+	if !ok {
+		r.Undecided("D4-decision-table", site, p.Pos(fn.Pos()), "shouldSkipDir is no longer a loop-free combination of at most 12 atomic tests")
+		return
+	}
+	classify := func(a string) string {
+		switch {
+		case strings.Contains(a, ".dirsToSkip["):
+			return "inSkipList"
+		case a == "param0.ignoreSubDirs":
+			return "ignoreSub"
+		case strings.Contains(a, "slices.Contains(param0.pathsToExtract,param1)"):
+			return "isRoot"
+		case a == "param0.useGitignore":
+			return "useGit"
+		case strings.Contains(a, "GitignoreMatch("):
+			return "gitMatch"
+		case strings.Contains(a, "param0.skipDirRegex") && strings.Contains(a, "nil:"):
+			return "regexNil"
+		case strings.Contains(a, "MatchString(param0.skipDirRegex"):
+			return "regexMatch"
+		case strings.Contains(a, "param0.skipDirGlob") && strings.Contains(a, "nil:"):
+			return "globNil"
+		case strings.Contains(a, ".Match(") && strings.Contains(a, "skipDirGlob"):
+			return "globMatch"
+		}
+		return ""
+	}
+	var vars []string
+	have := map[string]bool{}
+	for _, a := range atoms {
+		v := classify(a)
+		if v == "" {
+			r.Undecided("D4-decision-table", site+":atom", p.Pos(fn.Pos()), "shouldSkipDir tests something the five skip rules do not mention: "+a)
+			return
+		}
+		vars = append(vars, v)
+		have[v] = true
+	}
+	for _, n := range []string{"inSkipList", "ignoreSub", "isRoot", "useGit", "gitMatch", "regexNil", "regexMatch", "globNil", "globMatch"} {
+		if !have[n] {
+			r.Fail("D4-decision-table", site+":"+n, p.Pos(fn.Pos()), "shouldSkipDir no longer makes the test '"+n+"': that skip rule is not consulted")
+			return
+		}
+	}
+	for row := 0; row < len(table); row++ {
+		val := map[string]bool{}
+		for k, v := range vars {
+			val[v] = row&(1<<k) != 0
+		}
+		model := val["inSkipList"] || (val["ignoreSub"] && !val["isRoot"]) || (val["useGit"] && val["gitMatch"]) || (!val["regexNil"] && val["regexMatch"]) || (!val["globNil"] && val["globMatch"])
+		if model != (table[row] == '1') {
+			var desc []string
+			for k, v := range vars {
+				desc = append(desc, fmt.Sprintf("%s=%v", v, row&(1<<k) != 0))
+			}
+			r.Fail("D4-decision-table", site, p.Pos(fn.Pos()), fmt.Sprintf("shouldSkipDir answers %v when %s; the configured skip rules say %v", table[row] == '1', strings.Join(desc, " "), model))
+			return
+		}
+	}
+	r.OK("D4-decision-table", site, p.Pos(fn.Pos()), fmt.Sprintf("equals the disjunction of the five skip rules on all %d combinations of its %d tests", len(table), len(atoms)))
 }
